@@ -342,7 +342,7 @@ Proof.
     split; cbn [v_acts v_pend v_ran v_next].
     + rewrite runs_app. cbn. by rewrite app_nil_r.
     + intros q0. rewrite pushed_app, ranq_app. cbn. rewrite app_nil_r. unfold fupd. destruct (decide (q = q0)) as [<-|Hne].
-      * rewrite decide_True by done. rewrite I2, Hpe. cbn. done.
+      * rewrite decide_True by done. rewrite I2, Hpe. cbn. by rewrite ?app_nil_r.
       * rewrite decide_False by done. rewrite app_nil_r. apply I2.
     + intros e [He| ->]%elem_of_snoc; [by apply I3|done].
     + eapply acts_step; [exact HI|exact Ha|lia|done|exact Hev|]. unfold act_ok. cbn. repeat split; try done.
@@ -373,7 +373,7 @@ Proof.
       * apply elem_of_snoc in Hj' as [Hj'| ->].
         -- destruct (I6 q j' o c Hj' Hs) as (y & q' & Hy & Ho & Hph). exists y, q'. split; [|done].
            rewrite list_lookup_alter_ne; [done|]. intros ->. rewrite Ha in Hy. injection Hy as ->. congruence.
-        -- assert (c = a /\ o = aop x) as [-> ->] by (destruct Hj as [-> | ->], Hs as [Hs|Hs]; by injection Hs).
+        -- assert (c = a /\ o = aop x) as [-> ->] by (destruct Hj as [-> | ->], Hs as [Hs|Hs]; try discriminate; injection Hs as H1 H2; by subst).
            exists (set_ph (PWait q) x), q. by rewrite list_lookup_alter, Ha.
       * destruct (I6 q0 j' o c Hj' Hs) as (y & q' & Hy & Ho & Hph). exists y, q'. split; [|done].
         rewrite list_lookup_alter_ne; [done|]. intros ->. rewrite Ha in Hy. injection Hy as ->. congruence.
@@ -385,7 +385,7 @@ Proof.
     + rewrite runs_app, I1. done.
     + exact R6.
     + intros e [He| ->]%elem_of_snoc; [by apply I3|done].
-    + intros b y' [(-> & y & Hy & ->)|(Hne & Hb)]%lookup_alter_Some; [|by apply R1].
+    + intros b y' [(-> & y & Hy & ->)|(Hne & Hb)]%lookup_alter_Some; [|by apply (R1 b)].
       rewrite Ha in Hy. injection Hy as <-. unfold act_ok. cbn. repeat split; try done.
       * apply not_finished_app'; [done|by ev1].
       * by apply pushed_all_l.
